@@ -41,9 +41,22 @@ type c09Gen struct{}
 
 func drawC09(t *rapid.T) c09Case {
 	var c c09Case
-	arm := rapid.IntRange(0, 9).Draw(t, "arm")
+	arm := rapid.IntRange(0, 10).Draw(t, "arm")
 	hasSyntax := false
 	switch {
+	case arm == 10:
+		// E: bodies of 11-13 symbols with a recording action on every alternative:
+		// attribute references with two digits ($10, $11, …)
+		c.Arm = "E"
+		so := gen.SynOpts{Actions: true, AllRec: true, NoTokCast: true, LongBodies: true, ErrorAlts: rapid.Bool().Draw(t, "eErr")}
+		var g *gr.Grammar
+		if rapid.Bool().Draw(t, "eSynOnly") {
+			g = gen.SynGrammar(so).Draw(t, "eSyn")
+		} else {
+			g = gen.Combined(gen.DefaultLexOpts(), so).Draw(t, "eComb")
+		}
+		hasSyntax = true
+		c.Src = g.Source()
 	case arm == 9:
 		// D: plain well-formed grammars of the kinds the other checks compile in
 		// batches (there a grammar whose output does not build silently drops out;
@@ -51,10 +64,20 @@ func drawC09(t *rapid.T) c09Case {
 		c.Arm = "D"
 		lo := gen.DefaultLexOpts()
 		var g *gr.Grammar
-		if rapid.Bool().Draw(t, "dLexOnly") {
+		switch rapid.IntRange(0, 3).Draw(t, "dKind") {
+		case 0:
 			g = gen.LexGrammar(lo).Draw(t, "dLex")
-		} else {
+		case 1:
 			g = gen.Combined(lo, gen.SynOpts{ErrorAlts: rapid.Bool().Draw(t, "dErr")}).Draw(t, "dComb")
+		default:
+			// with the recording actions of the batch checks ($0 … $11 and beyond in
+			// long bodies, pass-through, default actions)
+			so := gen.SynOpts{Actions: true, NoTokCast: true, ErrorAlts: rapid.Bool().Draw(t, "dErrA"), LongBodies: rapid.Bool().Draw(t, "dLong")}
+			if rapid.Bool().Draw(t, "dSynOnly") {
+				g = gen.SynGrammar(so).Draw(t, "dSynA")
+			} else {
+				g = gen.Combined(lo, so).Draw(t, "dCombA")
+			}
 		}
 		hasSyntax = len(g.Prods) > 0
 		c.Src = g.Source()
@@ -93,6 +116,9 @@ func drawC09(t *rapid.T) c09Case {
 	}
 	if has(c.Flags, "-no_lexer") && has(c.Flags, "-debug_lexer") {
 		c.Flags = remove(c.Flags, "-debug_lexer")
+	}
+	if c.Arm == "E" && !has(c.Flags, "-a") {
+		c.Flags = append(c.Flags, "-a")
 	}
 	c.OutOpt = rapid.SampledFrom([]string{"", "", "out", "x/y"}).Draw(t, "outOpt")
 	c.PkgOpt = rapid.IntRange(0, 3).Draw(t, "pkgOpt") == 0
@@ -451,7 +477,7 @@ func runC09(c *check, replay string) int {
 	// tier compiles a bounded number of them, hostile spellings first
 	compileCap := tc.shards
 	byArm := map[string]int{}
-	armCap := map[string]int{"A": compileCap * 5 / 10, "C": compileCap * 2 / 10, "B": compileCap / 10, "D": compileCap * 2 / 10}
+	armCap := map[string]int{"A": compileCap * 5 / 10, "C": compileCap * 2 / 10, "B": compileCap / 10, "D": compileCap * 2 / 10, "E": compileCap / 10}
 	for _, r := range results {
 		keep := r.exit0 && r.problem == "" && byArm[r.c.Arm] < armCap[r.c.Arm]
 		if keep {
@@ -608,4 +634,4 @@ func sigOf(p string) string {
 	return ""
 }
 
-const c09Rule = "case = grammar source text + flags (-a -zip -no_lexer -debug_lexer -debug_parser -v subsets) + output directory (absent, out, x/y) + -p (absent/correct) + file name; one well-formed case in five is a REgeneration (the output directory holds what the same grammar gave with the debug flags on and the other table encoding); four arms: A well-formed grammars with hostile spellings (string literals with quotes, backticks, backslashes, $, %, {{, */, non-ASCII, tabs; Unicode/inner-! names; valid-Go actions with raw strings, comparison operators, $ inside Go strings, comments, format verbs; multi-import headers), B pattern shapes aimed at the item-set worklists (nested nullable repetitions/options, deep groups, long alternations, regdef chains), C byte/word mutations of grammars without any << >>, D plain well-formed lexical and combined grammars (Unicode edge characters incl. NUL in patterns). Oracles: the child ends within a CPU-time limit (re-run once with the limit doubled); on status 0 every package the configuration calls for exists and no file is empty; `go build` of everything written succeeds. Failures are grouped and shrunk by delta debugging over the source text. The quick tier compiles a bounded number of the status-0 outputs (hostile spellings first). Non-trivial and distinct: distinct (source, flags, output option) with exit status 0 whose output was compiled, plus arm B cases (termination on nested nullable shapes) with exit status 0."
+const c09Rule = "case = grammar source text + flags (-a -zip -no_lexer -debug_lexer -debug_parser -v subsets) + output directory (absent, out, x/y) + -p (absent/correct) + file name; one well-formed case in five is a REgeneration (the output directory holds what the same grammar gave with the debug flags on and the other table encoding); five arms: A well-formed grammars with hostile spellings (string literals with quotes, backticks, backslashes, $, %, {{, */, non-ASCII, tabs; Unicode/inner-! names; valid-Go actions with raw strings, comparison operators, $ inside Go strings, comments, format verbs; multi-import headers), B pattern shapes aimed at the item-set worklists (nested nullable repetitions/options, deep groups, long alternations, regdef chains), C byte/word mutations of grammars without any << >>, D plain well-formed lexical and combined grammars (Unicode edge characters incl. NUL in patterns), half of them with the recording / pass-through / default actions of the batch checks, E grammars with bodies of 11-13 symbols and a recording action on every alternative ($10 and beyond). Oracles: the child ends within a CPU-time limit (re-run once with the limit doubled); on status 0 every package the configuration calls for exists and no file is empty; `go build` of everything written succeeds. Failures are grouped and shrunk by delta debugging over the source text. The quick tier compiles a bounded number of the status-0 outputs (hostile spellings first). Non-trivial and distinct: distinct (source, flags, output option) with exit status 0 whose output was compiled, plus arm B cases (termination on nested nullable shapes) with exit status 0."
